@@ -778,7 +778,7 @@ def run(pid: str, tier: str, replay: str | None = None) -> int:
         group_algebra_mc(rep, pid, thorough)
         # results fed back as operands, breadth-first to depth 3 (design level only)
         _nf_extra(rep, "ClosureSpec", "SelQuick" if thorough else "SelTiny", ["ClosureNormal"], dump=False, props=["ClosureSound"], constraint="ClosureBound")
-    marker_sessions(rep, (pid,), n_random=(8000 if thorough else 900), n_law=(3000 if thorough else 400))
+    marker_sessions(rep, (pid,), n_random=(8000 if thorough else 900), n_law=(3000 if thorough else (800 if pid == "C12" else 400)))
     rep.set(rule="random marker sessions (2-3 parsed markers of depth <= 2 over 2-3 variables, then &, |, reparse, only, exclude, "
                  "without_extras on earlier results); truth tables from the real evaluate() on the region grid of the session's literals; "
                  "every event validated by TLC against MarkerSessionTrace")
